@@ -26,7 +26,7 @@ CHECKS = {
         category="fault_enumeration", design_ref="DESIGN.md section 6 (C01)",
         technique="deterministic simulation: seeded write->read histories over a simulated disk and stream stack (short reads/writes, tiny buffers, split multi-byte characters), storage histories (aborted writes, in-place edit + rewrite onto the same path with the modification time restored, streams handed in at a non-zero position), Decimal reference oracle, ddmin-minimised replay files",
         text="Seeded search over trees x writer options x source kinds x stream schedules; every benign stream fault must leave the round trip exact. Sampling, not proof: a clean batch is evidence only.",
-        note="Trusts CPython's io stack, the Decimal-based rounding oracle and the tree generator's notion of well-formed (ids 0..n-1, parents before children, float32 finite values, int32 types).",
+        note="Trusts CPython's io stack, the Decimal-based rounding oracle and the tree generator's notion of well-formed (ids 0..n-1, node 0 the root, numbering parent-first or not, float32 finite values, int32 types).",
     ),
     "C02": dict(
         category="fault_enumeration", design_ref="DESIGN.md section 6 (C02)",
@@ -37,7 +37,7 @@ CHECKS = {
     "C03": dict(
         category="exploration", design_ref="DESIGN.md section 6 (C03)",
         technique="deterministic simulation of operation histories: seeded pipelines of tree->tree operations over a pool of live trees with bit-exact snapshots, np.shares_memory aliasing sweep, edit and read-only query steps between operations, callbacks that raise mid-traversal (cancellation fault)",
-        text="After every step: result well-formed, every other live tree bit-identical to its snapshot, no storage shared. Seeded sampling of programs <= 14 steps on trees <= 40 nodes.",
+        text="After every step: result well-formed, every other live tree bit-identical to its snapshot, no storage shared (extra per-node columns included). Seeded sampling of programs <= 14 steps on trees <= 40 nodes, plus one run in fifty on a tree of 1100-7000 nodes.",
         note="Admissible arguments are computed on the model side; Identity/empty Transforms are excluded (documented to return their argument).",
     ),
     "C09": dict(
@@ -72,9 +72,9 @@ CHECKS = {
     ),
     "C19": dict(
         category="fault_enumeration", design_ref="DESIGN.md section 6 (C19)",
-        technique="deterministic simulation with fault injection: directory layouts on a simulated disk with permuted listings, per-file open ledger, files deleted/corrupted after listing, EIO in lazy reads, PYTHONHASHSEED varied per shard, and a seeded stub process pool deciding completion order",
+        technique="deterministic simulation with fault injection: directory layouts on a simulated disk with permuted listings, per-file open ledger, files deleted/corrupted after listing, EIO in lazy reads, PYTHONHASHSEED varied per shard, and a seeded stub process pool deciding completion order whose tasks run in a worker process forked at the pool's first task (stale images of long-lived pools show); histories that reuse one PopulationTransform object and sweep a parameter across map calls",
         text="Access histories (index, slice, iterate, chain, map) checked against list arithmetic and an open-count ledger after every step.",
-        note="The process pool is a stub (SimPool) honouring the concurrent.futures.Executor contract; real ProcessPoolExecutor scheduling cannot be decided from a seed.",
+        note="The process pool is a stub (SimPool) honouring the concurrent.futures.Executor contract; real ProcessPoolExecutor scheduling cannot be decided from a seed. One forked worker per pool stands for its workers.",
     ),
 }
 
